@@ -611,7 +611,11 @@ def _gen_params(rng, kind, lead, D):
         return {'mean': m / np.linalg.norm(m, axis=-1, keepdims=True), 'concentration': np.exp(rng.normal(size=lead) * 1.5)}
     if kind == 'watson':
         m = rng.normal(size=lead + (D,)) + 1j * rng.normal(size=lead + (D,))
-        return {'mode': m / np.linalg.norm(m, axis=-1, keepdims=True), 'concentration': np.exp(rng.normal(size=lead) * 1.5)}
+        conc = np.exp(rng.normal(size=lead) * 1.5)
+        if rng.random() < 0.4 and conc.size > 1:
+            # one nearly noise-free slice (concentration up to 650, reachable with max_concentration=650) next to diffuse ones
+            conc.reshape(-1)[int(rng.integers(conc.size))] = float(rng.choice([120.0, 480.0, 620.0, 650.0]))
+        return {'mode': m / np.linalg.norm(m, axis=-1, keepdims=True), 'concentration': conc}
     if kind == 'cacg':
         ev = np.sort(np.exp(rng.normal(size=lead + (D,))), axis=-1)
         return {'covariance_eigenvectors': tu.unitary(rng, lead, D), 'covariance_eigenvalues': ev / ev[..., -1:]}
